@@ -131,6 +131,8 @@ class Cli:
             preamble=self.preamble
         )
         if self.output_file:
+            # A text that can not be encoded (lone surrogate from a JSON escape) has to fail before the file is truncated
+            output.encode("utf-8")
             with open(self.output_file, "w", encoding="utf-8") as f:
                 f.write(output)
             return f"Output is written to {self.output_file}"
